@@ -71,7 +71,8 @@ func (p *Path) eqValue(a, b Value) *Term {
 		return BoolT(x.O == y.O && x.O == nil)
 	case *FuncV:
 		y := b.(*FuncV)
-		return BoolT(x == nil && y == nil)
+		// only comparisons with nil are legal in Go
+		return tb.And(funcNil(x), funcNil(y))
 	case ChanV:
 		return BoolT(x.ID == b.(ChanV).ID)
 	case OpaqueV:
@@ -88,6 +89,16 @@ func (p *Path) eqValue(a, b Value) *Term {
 		return r
 	}
 	panic(fmt.Sprintf("engine: eqValue %T", a))
+}
+
+func funcNil(f *FuncV) *Term {
+	if f == nil {
+		return tTrue
+	}
+	if f.Nil != nil {
+		return f.Nil
+	}
+	return tFalse
 }
 
 func nilTerm(x PtrV) *Term {
@@ -487,7 +498,16 @@ func (p *Path) builtin(fr *frame, b *ssa.Builtin, call *ssa.CallCommon, args []V
 			if x == nil {
 				return BVConst(0, 64)
 			}
-			return BVConst(uint64(len(x.E)), 64)
+			n := BVConst(0, 64)
+			cnt := 0
+			for _, e := range x.E {
+				if e.Cond == nil {
+					cnt++
+				} else {
+					n = p.tb.BVAdd(n, p.tb.Ite(e.Cond, BVConst(1, 64), BVConst(0, 64)))
+				}
+			}
+			return p.tb.BVAdd(n, BVConst(uint64(cnt), 64))
 		case *ArrayV:
 			return BVConst(uint64(len(x.E)), 64)
 		case PtrV:
@@ -582,6 +602,7 @@ func (p *Path) builtin(fr *frame, b *ssa.Builtin, call *ssa.CallCommon, args []V
 		switch x := args[0].(type) {
 		case *MapV:
 			if x != nil {
+				p.journalMap(x)
 				x.E = nil
 			}
 		case SliceV:
@@ -689,6 +710,9 @@ func (p *Path) mapFind(fr *frame, m *MapV, k Value, pos token.Pos) int {
 	var conds []*Term
 	for i := range m.E {
 		c := p.eqValue(m.E[i].K, k)
+		if m.E[i].Cond != nil {
+			c = p.tb.And(c, m.E[i].Cond)
+		}
 		if c.c && c.u != 0 {
 			// a definite hit can only be preceded by definite misses or symbolic maybes;
 			// keys in a map are pairwise distinct under the path condition, so at most one
@@ -711,16 +735,22 @@ func (p *Path) mapFind(fr *frame, m *MapV, k Value, pos token.Pos) int {
 
 func (p *Path) mapSet(fr *frame, m *MapV, k, v Value, pos token.Pos) {
 	i := p.mapFind(fr, m, k, pos)
+	p.journalMap(m)
 	if i >= 0 {
-		m.E[i].V = v
+		ne := append([]MapEntry(nil), m.E...)
+		ne[i].V = v
+		ne[i].Cond = nil // the path condition now implies the entry exists
+		m.E = ne
 		return
 	}
-	m.E = append(m.E, MapEntry{k, v})
+	ne := append([]MapEntry(nil), m.E...)
+	m.E = append(ne, MapEntry{K: k, V: v})
 }
 
 func (p *Path) mapDelete(fr *frame, m *MapV, k Value, pos token.Pos) {
 	i := p.mapFind(fr, m, k, pos)
 	if i >= 0 {
+		p.journalMap(m)
 		ne := make([]MapEntry, 0, len(m.E)-1)
 		ne = append(ne, m.E[:i]...)
 		ne = append(ne, m.E[i+1:]...)
@@ -831,6 +861,9 @@ func (p *Path) nextIter(fr *frame, itv Value, in *ssa.Next) Value {
 		for i := range it.m.E {
 			c := p.eqValue(it.m.E[i].K, k)
 			if c.c && c.u != 0 {
+				if cd := it.m.E[i].Cond; cd != nil && !p.forkBool(cd, fr, in.Pos()) {
+					break // the entry does not exist on this path
+				}
 				return TupleV{tTrue, k, it.m.E[i].V}
 			}
 		}
